@@ -26,10 +26,19 @@ type scriptConn struct {
 	eof    bool
 	closed bool
 	wrote  int
+	hookAt int    // index of the (empty) chunk before whose timeout event hook runs; -1 = none
+	hook   func() // runs once, outside the lock
 }
 
 func (c *scriptConn) Read(p []byte) (int, error) {
 	c.mu.Lock()
+	if c.hook != nil && c.i == c.hookAt {
+		h := c.hook
+		c.hook = nil
+		c.mu.Unlock()
+		h()
+		c.mu.Lock()
+	}
 	defer c.mu.Unlock()
 	if c.closed {
 		return 0, net.ErrClosed
@@ -116,11 +125,12 @@ type c07Case struct {
 	Delivered []B    `json:"delivered"`
 	ClosedErr bool   `json:"closed_err"`
 	Kind      string `json:"kind"`
+	ShutAt    int    `json:"shut_at,omitempty"` // server-shutdown: index of the timeout event at which the server is marked closed
 }
 
 func c07Run(c *c07Case) []Failure {
 	protocol.SetMaxPackageLength(c.Max)
-	conn := &scriptConn{chunks: cloneChunks(fromB(c.Chunks))}
+	conn := &scriptConn{chunks: cloneChunks(fromB(c.Chunks)), hookAt: -1}
 	rec := &recProto{client: c.Side == "client"}
 	switch c.Side {
 	case "server-pool1":
@@ -128,6 +138,11 @@ func c07Run(c *c07Case) []Failure {
 	case "server-pool1q1": // one worker, a queue of one, slow handlers: bursts fill the queue and the receive loop has to wait
 		rec.slow = 3 * time.Millisecond
 		transport.VerifServerRecv(rec, &transport.TarsServerConf{Proto: "tcp", Address: "127.0.0.1:0", MaxInvoke: 1, QueueCap: 1, IdleTimeout: time.Hour, ReadTimeout: time.Second}, conn)
+	case "server-shutdown": // graceful shutdown begins while a packet is half received: the loop keeps reading until it is complete
+		var srv *transport.TarsServer
+		conn.hookAt, conn.hook = c.ShutAt, func() { transport.VerifC12StoreClosed(srv) }
+		transport.VerifServerRecvOn(rec, &transport.TarsServerConf{Proto: "tcp", Address: "127.0.0.1:0", MaxInvoke: 1, QueueCap: 1000, IdleTimeout: time.Hour, ReadTimeout: time.Second}, conn,
+			func(ts *transport.TarsServer) { srv = ts })
 	case "server-nopool":
 		transport.VerifServerRecv(rec, &transport.TarsServerConf{Proto: "tcp", Address: "127.0.0.1:0", IdleTimeout: time.Hour, ReadTimeout: time.Second}, conn)
 	case "client":
@@ -153,7 +168,7 @@ func c07Run(c *c07Case) []Failure {
 	closed := conn.closed
 	conn.mu.Unlock()
 	var fs []Failure
-	ordered := c.Side == "server-pool1" || c.Side == "server-pool1q1"
+	ordered := c.Side == "server-pool1" || c.Side == "server-pool1q1" || c.Side == "server-shutdown"
 	if !ordered { // hand-over order is not observable (one goroutine per packet): compare as multisets in sent order
 		c.Delivered = toB(reorderLike(fromB(c.Delivered), fromB(c.Sent)))
 	}
@@ -277,7 +292,7 @@ func c07Gen(tier string, rng *rand.Rand) []c07Case {
 	if tier == "thorough" {
 		n = 520
 	}
-	maxes := []int{4, 5, 8, 64, 300, 4096, 10485760}
+	maxes := []int{4, 5, 8, 64, 300, 4096, 10485760, 2147483647, 2147483648, 4294967295}
 	sides := []string{"server-pool1", "server-nopool", "client", "server-pool1q1"}
 	modes := []string{"single", "coalesced", "header-cut", "random"}
 	for _, max := range maxes {
@@ -337,9 +352,14 @@ func c07Gen(tier string, rng *rand.Rand) []c07Case {
 				case "max-plus-one":
 					l = uint32(max + 1)
 				}
+				if v := int64(max) + 1; (kind == "bad-long" || kind == "max-plus-one") && v+1000 > 0xffffffff { // no 32-bit prefix exceeds this limit
+					l = uint32(rng.Intn(4))
+				}
 				bad := make([]byte, 4)
 				binary.BigEndian.PutUint32(bad, l)
-				c.BadAt = len(c.Sent)
+				if l < 4 || int64(l) > int64(max) {
+					c.BadAt = len(c.Sent)
+				} // else (huge limits only): a legal prefix of a packet that never completes - a tail, nothing is closed
 				stream = append(stream, bad...)
 				// junk after the illegal prefix, including well-formed packets that must not be delivered
 				junk := mkPacket(rng, 4+rng.Intn(20), 1000)
@@ -385,6 +405,40 @@ func c07Gen(tier string, rng *rand.Rand) []c07Case {
 			cs = append(cs, c)
 		}
 	}
+	// graceful shutdown while a packet is half received (server side): the stream ends with that packet; the server is
+	// marked closed at a read timeout that fires inside it (after 1..len-1 of its bytes), further timeouts may follow
+	nsh := 12
+	if tier == "thorough" {
+		nsh = 150
+	}
+	for it := 0; it < nsh; it++ {
+		max := []int{64, 300, 4096, 10485760}[it%4]
+		c := c07Case{Side: "server-shutdown", Max: max, BadAt: -1, Kind: "legal/shutdown-inside-packet"}
+		var stream []byte
+		npk := 1 + rng.Intn(4)
+		lim := max
+		if lim > 90 {
+			lim = 90
+		}
+		for k := 0; k < npk; k++ {
+			p := mkPacket(rng, 5+rng.Intn(lim-4), k)
+			c.Sent = append(c.Sent, p)
+			stream = append(stream, p...)
+		}
+		last := fromB(c.Sent)[npk-1]
+		cut := len(stream) - len(last) + 1 + rng.Intn(len(last)-1) // 1..len-1 bytes of the last packet are in
+		chunks := partition(rng, stream[:cut], []string{"single", "coalesced", "header-cut", "random"}[it%4])
+		c.ShutAt = len(chunks)
+		chunks = append(chunks, []byte{}) // the timeout event at which the server is marked closed
+		for _, ch := range partition(rng, stream[cut:], []string{"coalesced", "single", "random"}[it%3]) {
+			if rng.Intn(3) == 0 {
+				chunks = append(chunks, []byte{})
+			}
+			chunks = append(chunks, ch)
+		}
+		c.Chunks = toB(chunks)
+		cs = append(cs, c)
+	}
 	return cs
 }
 
@@ -397,7 +451,7 @@ func init() {
 		runProp(Prop[c07Case]{
 			ID: "C07", Require: "From TarsV Require Import Base.Hex Frame.Framing.", CaseType: "c07_case",
 			Mismatch: "failing_from c07_check", Corr: "Framing.c07_check (recv_loop = real tcpHandler.recv / connection.recv over a scripted net.Conn)",
-			Rule:    "generated streams of 1-12 length-prefixed packets (sizes 4, max-1, max, random) for max in {4,5,8,64,300,4096,10485760}, optionally followed by a proper prefix or an illegal length prefix (0-3, max+1, >max, 2^31.., 2^32-1) plus junk, partitioned into reads as single bytes / coalesced 4096-byte reads / cuts inside headers / random; run through the real server loop (1-worker pool: ordered; 1-worker pool with a queue of one and 3 ms handlers, so that bursts fill the queue: ordered; no pool: multiset) and the real client loop; class = (side, max, stream kind, partition mode)",
+			Rule:    "generated streams of 1-12 length-prefixed packets (sizes 4, max-1, max, random) for max in {4,5,8,64,300,4096,10485760,2^31-1,2^31,2^32-1}, optionally followed by a proper prefix or an illegal length prefix (0-3, max+1, >max, 2^31.., 2^32-1) plus junk, partitioned into reads as single bytes / coalesced 4096-byte reads / cuts inside headers / random; run through the real server loop (1-worker pool: ordered; 1-worker pool with a queue of one and 3 ms handlers, so that bursts fill the queue: ordered; no pool: multiset) and the real client loop; plus server-side streams whose last packet is half received when graceful shutdown begins (server marked closed at a read timeout inside the packet); class = (side, max, stream kind, partition mode)",
 			Shard:   80,
 			Workers: 1, // maxPackageLength is process-global
 			Gen:     c07Gen, Run: c07Run, Coq: c07Coq,
